@@ -558,11 +558,15 @@ func parseComment(l *syntax.Lexer) (bool, syntax.Token, error) {
 		// parse ：after 「注」
 		if l.GetCurrentChar() == Colon {
 			isComment = true
-			switch l.Next() {
+			// only an opening quote belongs to the comment mark; any other character
+			// (a line break, the end of text) is examined by the scanning loop below
+			switch l.Peek() {
 			case LeftDoubleQuoteI:
+				l.Next()
 				multiCommentType = commentTypeQuoteI
 				quoteCount = 1
 			case LeftDoubleQuoteII:
+				l.Next()
 				multiCommentType = commentTypeQuoteII
 				quoteCount = 1
 			default:
